@@ -237,15 +237,15 @@ func (i *Int) Sub(a, b kyber.Scalar) kyber.Scalar {
 
 // Neg sets the target to -a mod M.
 func (i *Int) Neg(a kyber.Scalar) kyber.Scalar {
-	newNat := new(compatible.Int)
 	ai, ok := a.(*Int)
 	if !ok {
 		panic("invalid argument")
 	}
-	newNat.Int = *ai.M.Nat()
-	i.V.Set(newNat)
+	// 0 - a mod M, computed into a fresh value: the receiver may be a itself,
+	// and M - a would leave the unreduced M for a = 0
+	v := compatible.NewInt(0).Sub(compatible.NewInt(0), &ai.V, ai.M)
 	i.M = ai.M
-	i.V = *compatible.NewInt(0).Sub(&i.V, &ai.V, i.M)
+	i.V = *v
 
 	return i
 }
